@@ -51,6 +51,7 @@ def run(repo, rep, tier):
     _attributes(repo, rep)
     _whitespace(repo, rep)
     _entry_restored(repo, rep)
+    _iterable_expressions(repo, rep)
     _digits(repo, rep)
 
 
@@ -406,6 +407,46 @@ def _skeleton(repo, rep):
     rep.check(not fo.f.get("orelse") or not list(A.flatten(
         fo.f.get("orelse"))), "R08.2", site, "the loop has no else branch",
         construct="no-orelse", where=wh)
+
+
+def _iterable_expressions(repo, rep):
+    # 'any iterable', 'one-shot iterators': a generator expression or a
+    # comprehension written in the repeat clause binds its own variable, it
+    # must not store to (or read from) the template variables of enclosing
+    # loops -- the scope-aware handlers of the name rewriter (shared with
+    # C04.R04.6)
+    from .c04 import _binders
+    _binders(repo, rep, rule="R08.1", handlers=True,
+             only=("GeneratorExp", "ListComp", "SetComp", "DictComp"))
+    # 'unpacking into several': the name list of the clause grammar admits
+    # any number of names
+    from .. import rx
+    C = rx.C
+    rc = repo.const("chameleon.tal", "DEFINE_RE")
+    pat = rc.pattern if isinstance(rc.pattern, str) else \
+        rc.pattern.decode("latin-1")
+    reps = []
+
+    def walk(items):
+        for op, av in items:
+            if op in (C.MAX_REPEAT, C.MIN_REPEAT):
+                body = list(av[2])
+                flat = body
+                if len(body) == 1 and body[0][0] is C.SUBPATTERN:
+                    flat = list(body[0][1][3])
+                if flat and flat[0] == (C.LITERAL, ord(",")):
+                    reps.append((av[0], av[1]))
+                walk(av[2])
+            elif op is C.SUBPATTERN:
+                walk(av[3])
+            elif op is C.BRANCH:
+                for a in av[1]:
+                    walk(a)
+    walk(list(rx.parse(pat, rc.flags)))
+    rep.check(len(reps) == 1 and reps[0][0] == 0 and reps[0][1] >= 65535,
+              "R08.2", "chameleon.tal.DEFINE_RE", "a parenthesised name "
+              "list may have any number of further ', name' items",
+              construct="name-list-unbounded", detail=str(reps))
 
 
 def _entry_restored(repo, rep):
